@@ -36,6 +36,10 @@ checks = {
    text="migration.Upgrade is run inside a real walletdb transaction for every non-empty version table over {1..4} (thorough {1..6}), every declaration order, every nil/ok/fail assignment and every stored version, alone and as two services in one call, against a sorted-filter model with full database dump comparison; wallet.Open is run on real wallet files with every combination of overwritten wtxmgr/waddrmgr versions.",
    note="Exhaustive over the stated finite grids; migrations of the harness manager write marker keys so that rollback is observable.",
    technique="exhaustive enumeration of a bounded input space on the real code with a reference model"),
+ "C05": dict(engine="seqx", level=MC, ref="4/C05",
+   text="Every sequence up to depth 3 (thorough 4 reduced) over unlock(right/wrong/old)/lock/passphrase change(priv,pub)/address, cache-warming, import and account operations/restart/convert-to-watching-only; in the reached state every private-material accessor is applied to every managed address and path and must fail while locked or watching-only, the build-tagged hook must report every clear-text buffer wiped after each lock (explicit or by failed unlock), wrong/old passphrases must fail and leave it locked and the current one must unlock.",
+   note="State = operation history; clear text in unreachable objects or caller-held copies cannot be inspected; error classes other than locked/watching-only are recorded, not required.",
+   technique="bounded exhaustive enumeration of operation sequences on the implementation (stateless model checking) with an access-control table and a memory-inspection hook as oracle"),
 }
 pending_reason = "check not built yet in this session (planned, see DESIGN.md section 4)"
 def sh(c): return subprocess.run(c, shell=True, capture_output=True, text=True).stdout.strip()
